@@ -146,6 +146,31 @@ def delta_seq(rng, bits, n, w):
     return vals
 
 
+def delta_struct(rng, bits, classes, cut=0):
+    """values whose mini-blocks (32 deltas each, 4 per block) have the given width classes: 0 = width 0 (all deltas equal
+    the block's min delta), 1 = narrow, 2 = wide (INT64: 33..62 bits; INT32: 17..30 bits).  `cut` values are dropped from the
+    end (partial last mini-block)."""
+    mask = (1 << bits) - 1
+    narrow = lambda: rng.choice([1, 2, 7, 8, 9, 16, 31, 32] if bits == 64 else [1, 2, 7, 8, 9, 16])
+    wide = lambda: rng.choice([33, 34, 40, 47, 48, 56, 59, 61, 62] if bits == 64 else [17, 24, 25, 30])
+    vals = [rng.getrandbits(bits)]
+    for b in range(0, len(classes), 4):
+        m = -rng.getrandbits(rng.choice([1, 20, bits - 3])) - 1 if rng.random() < 0.7 else rng.getrandbits(rng.choice([1, 12, bits - 3]))
+        blk = classes[b:b + 4]
+        for j, c in enumerate(blk):
+            w = 0 if c == 0 else narrow() if c == 1 else wide()
+            offs = [rng.getrandbits(w) if w else 0 for _ in range(32)]
+            if w:
+                offs[rng.randrange(32)] = (1 << (w - 1)) | rng.getrandbits(w - 1) if w > 1 else 1
+            if j == 0 and 0 not in blk:
+                offs[rng.randrange(32)] = 0           # the block's min delta must occur
+                if w and not any(o >> (w - 1) for o in offs):
+                    offs[[i for i, o in enumerate(offs) if o][0] if any(offs) else 0] |= 1 << (w - 1)
+            for o in offs:
+                vals.append((vals[-1] + m + o) & mask)
+    return vals[:len(vals) - cut] if cut else vals
+
+
 def gen_delta(tier, rng, fam):
     bits = 64 if fam == "d64" else 32
     mask = (1 << bits) - 1
@@ -162,6 +187,17 @@ def gen_delta(tier, rng, fam):
     for w in range(bits + 1):
         for n in (rng.choice(LENS), rng.randrange(2, 300)):
             out.append(Case(fam, cap(n), delta_seq(rng, bits, n, w), "w%d" % w))
+    # mini-block STRUCTURE: every sequence of width classes {0, narrow, wide} over the 4 mini-blocks of one block, and
+    # sampled (thorough: many more) sequences over the 8 mini-blocks of two blocks, last mini-block full or partial
+    import itertools as _it
+    classes = [0, 1, 2]
+    one = list(_it.product(classes, repeat=4))
+    two_all = list(_it.product(classes, repeat=8))
+    two = rng.sample(two_all, 1500 if tier == "thorough" else 90) + \
+        [t for t in two_all if t[:4] in ((0, 2, 0, 0), (0, 0, 2, 0), (2, 0, 2, 0)) and t[4:] in ((0, 2, 0, 2), (0, 0, 0, 0))]
+    for st in one + two:
+        for cut in ((0, rng.randrange(1, 32)) if len(st) == 4 or rng.random() < 0.3 else (0,)):
+            out.append(Case(fam, cap(32 * len(st) + 1), delta_struct(rng, bits, st, cut), "struct"))
     # extremes and wrap-around
     ext = [lo, hi, 0, 1, mask, mask - 1, lo + 1, hi - 1]
     for n in (1, 2, 3, 4, 33, 129, 130, 257):
@@ -234,6 +270,31 @@ def gen_strings(tier, rng, fam):
             p = rng.choice(pool)
             vals.append(p[:rng.randrange(0, len(p) + 1)] + rb(rng, rng.choice([0, 0, 1, 3])))
         out.append(Case(fam, None, vals, "pool"))
+    # successive values that share k >= 8 bytes and then differ in exactly ONE byte, at every offset 0..15 of the following
+    # two 8-byte words (word-at-a-time prefix search: the position of the differing byte inside the word matters)
+    for k in (8, 9, 15, 16, 24, 40):
+        base = rb(rng, k + 24)
+        for off in range(16):
+            x = bytearray(base); x[k + off] ^= rng.choice([1, 0x80, 0xFF, 0x10])
+            out.append(Case(fam, None, [base, bytes(x)], "flip1"))
+        chain = [base]
+        for off in rng.sample(range(16), 16):
+            x = bytearray(chain[-1]); x[k + off] ^= rng.choice([1, 2, 0x40, 0x80])
+            chain.append(bytes(x))
+        out.append(Case(fam, None, chain, "flip-chain"))
+    for _ in range(40 * reps):        # sparse flips anywhere, records like "...;shard=01;kind=..." / "...;shard=02;kind=..."
+        n, ln = rng.randrange(2, 40), rng.choice([8, 12, 17, 32, 33, 64])
+        cur = bytearray(rb(rng, ln)); vals = [bytes(cur)]
+        for _ in range(n - 1):
+            for _ in range(rng.choice([1, 1, 1, 2])):
+                cur[rng.randrange(ln)] ^= 1 << rng.randrange(8)
+            if rng.random() < 0.15:
+                cur = cur[:rng.randrange(8, ln + 1)] + bytearray(rb(rng, rng.randrange(0, 4)))
+                ln = len(cur) if len(cur) >= 8 else ln
+                if len(cur) < 8:
+                    cur = bytearray(rb(rng, 8)); ln = 8
+            vals.append(bytes(cur))
+        out.append(Case(fam, None, vals, "sparse-flip"))
     # one long string among short ones (wide length deltas)
     for big in (300, 5000, 70000):
         out.append(Case(fam, None, [b"", bytes(big), b""], "long"))
@@ -308,6 +369,64 @@ def gen_plain(tier, rng):
     return out
 
 
+def fnv1a_pairs(width, n, rng):
+    """fallback when the builder's own hash cannot be called: pairs of `width`-byte values with equal 32-bit FNV-1a"""
+    seen, pairs = {}, []
+    base = rng.getrandbits(8 * width)
+    for i in range(n):
+        v = (base + i // 2) & ((1 << (8 * width)) - 1) if i & 1 else rng.getrandbits(8 * width)
+        h = 0x811C9DC5
+        for b in v.to_bytes(width, "little"):
+            h = ((h ^ b) * 0x01000193) & 0xFFFFFFFF
+        if h in seen and seen[h] != v:
+            pairs.append((seen[h], v))
+        seen[h] = v
+    return pairs
+
+
+def hash_collisions(rep, tier, rng):
+    """{4: [(a, b), ...], 8: [...]}: distinct values to which the dictionary builder's hash gives the same 32 bits"""
+    n = 600000 if tier == "thorough" else 300000
+    try:
+        drv = build_driver("h_enc2hash")
+        out, rc, err = vlib.run_lines(drv, ["scan 4 %d %d 24" % (n, rng.getrandbits(30)), "scan 8 %d %d 12" % (n, rng.getrandbits(30))])
+        if rc != 0 or len(out) != 2 or not all(o.startswith("OK") for o in out):
+            raise vlib.BuildError("hash driver failed: %s %s" % (out, err[-300:]))
+        res = {}
+        for w, o in zip((4, 8), out):
+            t = o.split()[1]
+            res[w] = [tuple(int(x, 16) for x in p.split(":")) for p in t.split(",")] if t != "-" else []
+        rep.cov.setdefault("input_distribution", {})["enc2_hash_collisions"] = {"source": "dict_hash of the working tree", "w4": len(res[4]), "w8": len(res[8])}
+        return res
+    except vlib.BuildError as e:
+        log("enc2: harness/h_enc2hash.c does not build against this tree (%s); FNV-1a pairs from Python instead" % str(e)[-200:])
+        res = {4: fnv1a_pairs(4, 150000, rng)[:24], 8: fnv1a_pairs(8, 150000, rng)[:12]}
+        rep.cov.setdefault("input_distribution", {})["enc2_hash_collisions"] = {"source": "FNV-1a in Python (fallback)", "w4": len(res[4]), "w8": len(res[8])}
+        return res
+
+
+def gen_dict_collisions(tier, rng, coll):
+    out = []
+    p4, p8 = coll.get(4, []), coll.get(8, [])
+    for ty, pairs, w in (("i32", p4, 4), ("f32", p4, 4), ("i64", p8, 8), ("f64", p8, 8)):
+        for a, b in pairs[:12 if tier == "thorough" else 6]:
+            out.append(Case("dict", ty, [a, b, a, b, b, a], "hash-collision"))
+            out.append(Case("dict", ty, [b, 7, a, 7, a, b], "hash-collision"))
+        if pairs:
+            allv = [v for pr in pairs for v in pr]
+            out.append(Case("dict", ty, [rng.choice(allv) for _ in range(200)] + allv, "hash-collision"))
+    for pairs, w in ((p4, 4), (p8, 8)):
+        for a, b in pairs[:6]:
+            out.append(Case("dict", "ba", [a.to_bytes(w, "little"), b.to_bytes(w, "little"), b"x", a.to_bytes(w, "little"),
+                                           b.to_bytes(w, "little")], "hash-collision"))
+    # many distinct values: long chains in the 1024 buckets
+    for ty, bits in (("i32", 32), ("i64", 64)):
+        u = rng.sample(range(1 << 24), 3000)
+        out.append(Case("dict", ty, u + [rng.choice(u) for _ in range(500)], "bucket-chains"))
+    out.append(Case("dict", "ba", [rb(rng, rng.choice([1, 2, 3, 4])) for _ in range(2500)], "bucket-chains"))
+    return out
+
+
 def gen_dict(tier, rng):
     out = []
     for ty, bits, special in (("i32", 32, [0, 1, M32, 1 << 31]), ("i64", 64, [0, 1, M64, 1 << 63]),
@@ -343,8 +462,9 @@ def gen_dict(tier, rng):
     return out
 
 
-def gen_all(tier, rng):
+def gen_all(tier, rng, coll=None):
     cs = []
+    cs += gen_dict_collisions(tier, rng, coll or {})
     cs += gen_plain(tier, rng)
     cs += gen_bss(tier, rng)
     cs += gen_delta(tier, rng, "d64")
@@ -372,7 +492,7 @@ def _prepare(rep, tier, rng):
     except vlib.BuildError as e:
         rep.tie_broken("enc2 harness/runner does not build against the current tree: " + str(e)[-800:])
         return st
-    cases = gen_all(tier, rng)
+    cases = gen_all(tier, rng, hash_collisions(rep, tier, rng))
     lines = [c.enc_line for c in cases]
     impl, p1 = run_sharded(st["drv"], lines)
     model, p2 = run_sharded(st["run"], lines)
@@ -975,7 +1095,7 @@ def check_enc2_c12(rep, tier, rng):
     for c in cases:
         if c.tag in ("cap", "cap-1", "cap+5") or (c.tag in ("exh", "bool-exh") and rng.random() > keep):
             continue
-        for label, data in ref_variants(rng, c):
+        for label, data in (ref_variants(rng, c)[:2] if c.tag in ("struct", "flip1") and tier != "thorough" else ref_variants(rng, c)):
             lines.append(dec_line(c, data))
             meta.append((c, label, len(data)))
     impl, p1 = run_sharded(drv, lines)
